@@ -14,6 +14,7 @@ from __future__ import annotations
 
 import ast
 
+from ..cfg import call_name
 from ..index import AnalysisError, FuncInfo, get_index, norm, walk_no_nested
 from ..report import Check
 
@@ -194,6 +195,8 @@ def run(chk: Check) -> None:
         r2.violation("mypyc.lower.int_ops.int_comparison_op_mapping", ml.relpath, "; ".join(bad))
     else:
         r2.ok("mypyc.lower.int_ops.int_comparison_op_mapping", ml.relpath, "a<=b == not(b<a), a>b == b<a, a>=b == not(a<b)")
+
+    run_kind_predicates(chk, ix)
 
     # ---------------- R12.3
     r3 = chk.rule("R12.3", "each partial operator applied to folded operands is guarded against every CPython failure precondition for the operand types in force", floor=12)
@@ -435,3 +438,99 @@ def check_folder(f: FuncInfo, r3) -> None:
                 r3.ok(key, f.loc(n))
             else:
                 r3.violation(key, f.loc(n), f"`{norm(n)}` on folded user constants is not guarded: {what}")
+
+
+def run_kind_predicates(chk: Check, ix) -> None:
+    """R12.4: argument-kind tests in call binding agree with Python's binding rules (six-value domain, evaluated exhaustively)."""
+    from ..kinds import KINDS, KindEval, kind_subjects
+    from ..cfg import branch_conditions
+    r4 = chk.rule("R12.4", "call binding: (a) a keyword-only formal may be fed only by a keyword or ** actual, so the `too many positional arguments` branch of check_argument_count fires for exactly the positional actual kinds {ARG_POS, ARG_STAR}; (b) the case split of map_actuals_to_formals over the actual kind covers all four actual kinds; (c) a missing required formal is reported for exactly the required kinds, as positional/named by its kind", floor=4)
+    KE = KindEval(ix)
+    ACTUAL = {"ARG_POS", "ARG_STAR", "ARG_NAMED", "ARG_STAR2"}
+    cac = ix.func("mypy.checkexpr.ExpressionChecker.check_argument_count")
+    par = cac.module.parents()
+    sites = [c for c in ast.walk(cac.node) if isinstance(c, ast.Call) and call_name(c) == "too_many_positional_arguments"]
+    if not sites:
+        raise AnalysisError("check_argument_count: too_many_positional_arguments site not found")
+    for c in sites:
+        st = c
+        while not isinstance(st, ast.stmt):
+            st = par[st]
+        pos, neg = branch_conditions(par, cac.node, st)
+        formal_ok = False
+        actual_ts = None
+        for t in pos:
+            subs = kind_subjects(t)
+            if len(subs) != 1:
+                continue
+            sub = next(iter(subs))
+            try:
+                ts = KE.truth_set(t, sub)
+            except AnalysisError:
+                continue
+            if "actual" in sub:
+                actual_ts = (ts & ACTUAL) if actual_ts is None else (actual_ts & ts)
+            elif ts == frozenset({"ARG_NAMED", "ARG_NAMED_OPT"}):
+                formal_ok = True
+        key = "check_argument_count: a positional or * actual mapped to a keyword-only formal is rejected"
+        if formal_ok and actual_ts == frozenset({"ARG_POS", "ARG_STAR"}):
+            r4.ok(key, cac.loc(c))
+        else:
+            r4.violation(key, cac.loc(c), f"the branch reporting `too many positional arguments` is taken for actual kinds {sorted(actual_ts) if actual_ts is not None else None} (formal keyword-only test found: {formal_ok}); Python binds a keyword-only parameter only from a keyword or ** argument, so the branch must cover exactly ARG_POS and ARG_STAR (e.g. items of a *tuple running on into keyword-only parameters must be rejected: CPython raises TypeError)")
+    # (c) missing required formal
+    miss = [c for c in ast.walk(cac.node) if isinstance(c, ast.Call) and call_name(c) in ("too_few_arguments", "missing_named_argument")]
+    for c in miss:
+        st = c
+        while not isinstance(st, ast.stmt):
+            st = par[st]
+        pos, neg = branch_conditions(par, cac.node, st)
+        sets = []
+        for t, positive in [(x, True) for x in pos] + [(x, False) for x in neg]:
+            subs = kind_subjects(t)
+            if len(subs) == 1:
+                try:
+                    ts = KE.truth_set(t, next(iter(subs)))
+                    sets.append(ts if positive else frozenset(KINDS) - ts)
+                except AnalysisError:
+                    pass
+        if not sets:
+            continue  # the ParamSpec branch: not a kind decision
+        eff = frozenset(KINDS)
+        for x in sets:
+            eff &= x
+        want = frozenset({"ARG_POS"}) if call_name(c) == "too_few_arguments" else frozenset({"ARG_NAMED"})
+        key = f"check_argument_count: {call_name(c)} reported for formal kinds {sorted(want)}"
+        if eff == want:
+            r4.ok(key, cac.loc(c))
+        else:
+            r4.violation(key, cac.loc(c), f"reported for formal kinds {sorted(eff)}: a missing required {'positional' if 'few' in call_name(c) else 'keyword-only'} parameter is reported wrongly or not at all")
+    # (b) exhaustive case split over the actual kind
+    maf = ix.func("mypy.argmap.map_actuals_to_formals")
+    loops = [l for l in ast.walk(maf.node) if isinstance(l, ast.For) and "actual_kinds" in norm(l.iter)]
+    if not loops:
+        raise AnalysisError("map_actuals_to_formals: loop over actual kinds not found")
+    lp = loops[0]
+    chain = [x for x in lp.body if isinstance(x, ast.If)]
+    covered = set()
+    n_arms = 0
+    cur = chain[0] if chain else None
+    while cur is not None:
+        subs = kind_subjects(cur.test)
+        if len(subs) == 1:
+            try:
+                covered |= KE.truth_set(cur.test, next(iter(subs))) & ACTUAL
+                n_arms += 1
+            except AnalysisError:
+                pass
+        nxt = cur.orelse
+        if len(nxt) == 1 and isinstance(nxt[0], ast.If):
+            cur = nxt[0]
+        else:
+            if nxt:
+                covered |= ACTUAL  # a final else arm takes the rest
+            cur = None
+    key = "map_actuals_to_formals: the case split on the actual kind covers ARG_POS, ARG_STAR, ARG_NAMED and ARG_STAR2"
+    if covered >= ACTUAL and n_arms >= 3:
+        r4.ok(key, maf.loc(lp))
+    else:
+        r4.violation(key, maf.loc(lp), f"actual kinds {sorted(ACTUAL - covered)} fall through the case split: such arguments are mapped to no formal and neither checked nor reported")
